@@ -6,7 +6,8 @@
     handle            select { quit | sigSuspend → (sigResume | quit) | queueBlock | queueMsgTx }
     worker            select { quit | taskChan } → asyncImport / asyncRemove, re-push on "not finished"
     asyncImport       suspend; mwdb.Update (one batch); deferred resume
-    asyncRemove       suspend; Update; resume;  loop { quit? ; suspend; Update; resume }
+    asyncRemove       loop { quit? ; suspend; Update; resume }   (one phase since the D30 fix: the records keyed
+                      by the wallet id are deleted in the final transaction, there is no separate first round)
     suspend / resume  select { send sigSuspend/sigResume | quit }      (before the D12 fix: a bare send)
     Stop              close(quit); quitWg.Wait(); CloseDB            (wallet.go Stop unregisters the chain listener first)
     task.go           PushImport / PushRemove: select { send | default → dropped }; IsBusy: len ≥ MaxWaitingTaskNum
@@ -70,8 +71,7 @@ inductive HPc | top | wait | blk | tx | done
 inductive WPc
   | top
   | impSus | impCommit | impRes (o : IOut)
-  | rem1Sus | rem1Commit | rem1Res (ok : Bool)
-  | rem2Chk | rem2Sus | rem2Commit | rem2Res (o : ROut)
+  | remChk | remSus | remCommit | remRes (o : ROut)
   | push                       -- PushImport / PushRemove of the task in hand
   | done
   deriving DecidableEq, Repr, Inhabited
@@ -102,8 +102,8 @@ inductive Label
   -- rendezvous (worker + follower)
   | sus | res
   -- worker
-  | wQuit | wTakeImp | wTakeRem | wTakeSkip | wSusQuit | wCommitI (o : IOut) | wCommitR1 (ok : Bool)
-  | wCommitR2 (o : ROut) | wResQuit | wChkQuit | wChkGo | wPush | wPushDrop
+  | wQuit | wTakeImp | wTakeRem | wTakeSkip | wSusQuit | wCommitI (o : IOut)
+  | wCommitR (o : ROut) | wResQuit | wChkQuit | wChkGo | wPush | wPushDrop
   -- stop sequence after the request
   | sWait | sClose
   -- environment: stop request, chain notifications, API calls
@@ -114,7 +114,7 @@ def Label.all : List Label :=
   [.hQuit, .hTakeBlk, .hTakeTx, .hDoneBlk, .hDoneTx, .hWaitQuit, .sus, .res,
    .wQuit, .wTakeImp, .wTakeRem, .wTakeSkip, .wSusQuit,
    .wCommitI .fin, .wCommitI .more, .wCommitI .errRetry, .wCommitI .errGiveUp,
-   .wCommitR1 true, .wCommitR1 false, .wCommitR2 .finish, .wCommitR2 .more, .wCommitR2 .err,
+   .wCommitR .finish, .wCommitR .more, .wCommitR .err,
    .wResQuit, .wChkQuit, .wChkGo, .wPush, .wPushDrop, .sWait, .sClose, .eStop, .eBlk, .eTx, .aCheck, .aPush, .aPushDrop]
 
 /-- steps of the follower, the worker and the stop sequence once requested (the system proper) -/
@@ -125,14 +125,12 @@ def Label.core : Label → Bool
 /-- worker pcs at a suspend(): where it goes when the hand-shake happens / when quit wins -/
 def susNext : WPc → Option WPc
   | .impSus => some .impCommit
-  | .rem1Sus => some .rem1Commit
-  | .rem2Sus => some .rem2Commit
+  | .remSus => some .remCommit
   | _ => none
 
 def susAbort : WPc → Option WPc
   | .impSus => some .done          -- asyncImport returns ErrTaskAbort: the worker returns
-  | .rem1Sus => some .top          -- asyncRemove returns ErrTaskAbort: `continue`, not re-queued
-  | .rem2Sus => some .top
+  | .remSus => some .top           -- asyncRemove returns ErrTaskAbort: `continue`, not re-queued
   | _ => none
 
 /-- worker pcs at a resume(): where it continues afterwards (hand-shake or quit, same continuation) -/
@@ -141,11 +139,9 @@ def resNext : WPc → Option WPc
   | .impRes .errGiveUp => some .top
   | .impRes .more => some .push
   | .impRes .errRetry => some .push
-  | .rem1Res true => some .rem2Chk
-  | .rem1Res false => some .push
-  | .rem2Res .finish => some .top
-  | .rem2Res .more => some .rem2Chk
-  | .rem2Res .err => some .push
+  | .remRes .finish => some .top
+  | .remRes .more => some .remChk
+  | .remRes .err => some .push
   | _ => none
 
 /-- the worker holds a task it may still put back -/
@@ -173,21 +169,20 @@ def fire (sh : Shape) (c : Cfg) (l : Label) (s : St) : Option St :=
     | none => none
   | .wQuit => if s.wp = .top ∧ s.quit then some { s with wp := .done } else none
   | .wTakeImp => if s.wp = .top ∧ 0 < s.nt then some { s with wp := .impSus, nt := s.nt - 1 } else none
-  | .wTakeRem => if s.wp = .top ∧ 0 < s.nt then some { s with wp := .rem1Sus, nt := s.nt - 1 } else none
+  | .wTakeRem => if s.wp = .top ∧ 0 < s.nt then some { s with wp := .remChk, nt := s.nt - 1 } else none
   | .wTakeSkip => if s.wp = .top ∧ 0 < s.nt then some { s with nt := s.nt - 1 } else none
   | .wSusQuit =>
     match susAbort s.wp with
     | some w' => if s.quit ∧ sh.susQuit then some { s with wp := w' } else none
     | none => none
   | .wCommitI o => if s.wp = .impCommit then some { s with wp := .impRes o } else none
-  | .wCommitR1 ok => if s.wp = .rem1Commit then some { s with wp := .rem1Res ok } else none
-  | .wCommitR2 o => if s.wp = .rem2Commit then some { s with wp := .rem2Res o } else none
+  | .wCommitR o => if s.wp = .remCommit then some { s with wp := .remRes o } else none
   | .wResQuit =>
     match resNext s.wp with
     | some w' => if s.quit ∧ sh.resQuit then some { s with wp := w' } else none
     | none => none
-  | .wChkQuit => if s.wp = .rem2Chk ∧ s.quit then some { s with wp := .top } else none
-  | .wChkGo => if s.wp = .rem2Chk ∧ ¬ s.quit then some { s with wp := .rem2Sus } else none
+  | .wChkQuit => if s.wp = .remChk ∧ s.quit then some { s with wp := .top } else none
+  | .wChkGo => if s.wp = .remChk ∧ ¬ s.quit then some { s with wp := .remSus } else none
   | .wPush => if s.wp = .push ∧ s.nt < c.cap then some { s with wp := .top, nt := s.nt + 1 } else none
   | .wPushDrop => if s.wp = .push ∧ c.cap ≤ s.nt then some { s with wp := .top } else none
   | .sWait => if s.sp = .waiting ∧ s.hp = .done ∧ s.wp = .done then some { s with sp := .closing } else none
@@ -226,7 +221,7 @@ def isQuiescent (s : St) : Bool :=
 
 /-- between a completed suspend() and the matching resume() -/
 def window : WPc → Bool
-  | .impCommit | .impRes _ | .rem1Commit | .rem1Res _ | .rem2Commit | .rem2Res _ => true
+  | .impCommit | .impRes _ | .remCommit | .remRes _ => true
   | _ => false
 
 /-- breadth-first exploration with fuel, using only the transitions `allow` admits; returns the stuck
@@ -256,8 +251,7 @@ def canHang (sh : Shape) (c : Cfg) (task place : String) (nb : Nat) : Bool :=
     | .wTakeRem => task == "remove"
     | .wTakeSkip => false
     | .wCommitI o => o == .fin
-    | .wCommitR1 ok => ok
-    | .wCommitR2 o => o != .err
+    | .wCommitR o => o != .err
     | _ => true
   let s0 : St := { nt := if task = "none" then 0 else 1, nb := nb }
   !(explore sh c allow 4000 [s0] [] []).isEmpty
@@ -268,10 +262,10 @@ def rankH : HPc → Nat
 def taskW : Nat := 8
 def rankW : WPc → Nat
   | .done => 0 | .top => 1
-  | .impSus => 2 | .rem1Sus => 2 | .rem2Sus => 2 | .rem2Chk => 3
+  | .impSus => 2 | .remSus => 2 | .remChk => 3
   | .push => taskW + 2
-  | .impRes _ => taskW + 4 | .rem1Res _ => taskW + 4 | .rem2Res _ => taskW + 4
-  | .impCommit => taskW + 5 | .rem1Commit => taskW + 5 | .rem2Commit => taskW + 5
+  | .impRes _ => taskW + 4 | .remRes _ => taskW + 4
+  | .impCommit => taskW + 5 | .remCommit => taskW + 5
 def rankS : SPc → Nat
   | .done => 0 | .closing => 1 | .waiting => 2 | .idle => 3
 def stopMeasure (s : St) : Nat := 4 * s.nb + 4 * s.ntx + taskW * s.nt + rankH s.hp + rankW s.wp + rankS s.sp
